@@ -115,7 +115,7 @@ def tlc(module, cfg, cwd, env=None, workers=1, timeout=600, extra=None, classpat
     cp = [TLA_JAR, TLA_DEPS] + (classpath_extra or [])
     md = metadir or os.path.join(CACHE, 'tlc-meta', '%d-%d' % (os.getpid(), int(time.time() * 1e6) % 10**9))
     os.makedirs(md, exist_ok=True)
-    cmd = ['java', '-XX:+UseSerialGC' if workers == 1 else '-XX:+UseParallelGC', '-Xmx' + heap,
+    cmd = ['java', '-Xss256m', '-XX:+UseSerialGC' if workers == 1 else '-XX:+UseParallelGC', '-Xmx' + heap,
            '-cp', ':'.join(cp), 'tlc2.TLC', '-workers', str(workers), '-metadir', md,
            '-config', cfg] + (extra or []) + [module]
     e = dict(os.environ)
